@@ -277,9 +277,9 @@ def pack_dataclass(spec: ValueSpec) -> Optional[Expression]:
             return f"{spec.expression}.{method_name}({flags})"
         else:
             cls_alias = clean_id(type_name(spec.origin_type))
-            method_name_alias = f"{cls_alias}_{method_name}"
-            spec.builder.ensure_object_imported(
-                getattr(spec.attrs, method_name), method_name_alias
+            method_name_alias = spec.builder.ensure_object_imported(
+                getattr(spec.attrs, method_name),
+                f"{cls_alias}_{method_name}",
             )
             method_args = spec.expression
             return f"{method_name_alias}({method_args})"
@@ -349,9 +349,8 @@ def pack_union(
             for packer_arg_type in packer_arg_types[packer]:
                 if is_generic(packer_arg_type):
                     packer_arg_type = get_type_origin(packer_arg_type)
-                packer_arg_type_name = clean_id(type_name(packer_arg_type))
-                spec.builder.ensure_object_imported(
-                    packer_arg_type, packer_arg_type_name
+                packer_arg_type_name = spec.builder.ensure_object_imported(
+                    packer_arg_type, clean_id(type_name(packer_arg_type))
                 )
                 if packer_arg_type_name not in packer_arg_type_names:
                     packer_arg_type_names.append(packer_arg_type_name)
